@@ -66,8 +66,12 @@ impl Model {
     /// `keep` = the source element stays in place (lazy clone of a reference).
     fn eval_src(&mut self, src: &Src, ex: &mut Expect) -> Id {
         match src {
-            Src::Wrapper(i) | Src::Raw(i) | Src::TypelessRaw(i) | Src::SizelessRaw(i) => *i,
-            Src::Pop(w) => self.vecs[*w].pop().expect("model: pop source empty"),
+            Src::Wrapper(i) | Src::Raw(i) | Src::TypelessRaw(i) | Src::SizelessRaw(i) | Src::UserTyped(i) => *i,
+            Src::UserLazy(i) => {
+                ex.clones.push(*i);
+                *i
+            }
+            Src::Pop(w) | Src::HandleUnchecked(w) => self.vecs[*w].pop().expect("model: pop source empty"),
             Src::Remove(w, j) | Src::Drained(w, j) => self.vecs[*w].remove(*j),
             Src::SwapRemove(w, j) => self.vecs[*w].swap_remove(*j),
             Src::Lazy(kind, w, j, _d) => {
@@ -228,7 +232,7 @@ impl Model {
                 }
             }
             Op::Push { v, src } => {
-                let is_lazy = matches!(src, Src::Lazy(..));
+                let is_lazy = matches!(src, Src::Lazy(..) | Src::UserLazy(..));
                 let id = self.eval_src(src, &mut ex);
                 ex.nontrivial = true;
                 if self.full(*v, 1) {
@@ -242,7 +246,7 @@ impl Model {
                 }
             }
             Op::Insert { v, at, src } => {
-                let is_lazy = matches!(src, Src::Lazy(..));
+                let is_lazy = matches!(src, Src::Lazy(..) | Src::UserLazy(..));
                 let id = self.eval_src(src, &mut ex);
                 ex.nontrivial = true;
                 if *at > self.vecs[*v].len() || self.full(*v, 1) {
